@@ -988,6 +988,13 @@ def read_store_dir(d):
 def run_children(cases, tag, timeout_s, per_case=False):
     """Run schedule cases in parallel child processes under `timeout`; returns list of observations
     (None where the child died before reaching the case)."""
+    if per_case and len(cases) > C.NPROC:   # waves of at most NPROC fresh processes
+        out, logs = [], []
+        for w in range(0, len(cases), C.NPROC):
+            o, lg = run_children(cases[w:w + C.NPROC], f"{tag}_{w}", timeout_s, per_case=True)
+            out += o
+            logs += lg
+        return out, logs
     d = os.path.join(C.BUILD, "c19", tag)
     shutil.rmtree(d, ignore_errors=True)
     os.makedirs(d)
@@ -1061,13 +1068,12 @@ def first_wrong(spec, obs):
 def confirm_in_fresh_process(out, candidates, base_dir, tag):
     """candidates: {signature: [(size, what, spec), ...]} observed in THIS process, where earlier
     cases may have left state behind in the implementation (module-level caches).  A replay must
-    fail on its own: every candidate (smallest first, at most 10 per signature) is re-run alone in
+    fail on its own: every candidate (smallest first, a few per signature) is re-run alone in
     a fresh child process and reported only if it fails there too."""
     todo = []
+    per_sig = max(2, min(10, 48 // max(1, len(candidates))))
     for sig, lst in sorted(candidates.items()):
-        for j, (size, what, spec) in enumerate(sorted(lst, key=lambda x: x[0])[:10]):
-            if len(todo) >= 40:
-                break
+        for j, (size, what, spec) in enumerate(sorted(lst, key=lambda x: x[0])[:per_sig]):
             sp = json.loads(json.dumps(spec))
             if sp["kind"] == "cache":
                 sp["dir"] = os.path.join(base_dir, f"{tag}{len(todo)}")
